@@ -53,8 +53,25 @@ func (c *Ctx) mapKV(mt *types.Map) (ks, vs string) {
 // elemSort: like sortOf for slice/array elements, but pointer-like and struct
 // element types get a per-type alias sort so that slices of different element
 // types (which cannot alias) live in different Mem.* heap arrays.
+// byteMem: the heap variable holding the contents of byte arrays. Bytes get a
+// memory of their own so that "every element is in 0..255" can be a
+// well-formedness fact of that memory.
+func (c *Ctx) byteMem() (name, srt string) {
+	es := c.elemSort(types.Typ[types.Uint8])
+	return "Mem." + sanitize(es), "(Array Int " + arrOf(es) + ")"
+}
+
 func (c *Ctx) elemSort(t types.Type) string {
 	real := c.sortOf(t)
+	if b, isBasic := t.Underlying().(*types.Basic); isBasic && b.Kind() == types.Uint8 {
+		alias := "E.byte"
+		if c.sortAlias == nil {
+			c.sortAlias = map[string]string{}
+		}
+		c.sortAlias[alias] = real
+		c.declare(alias, fmt.Sprintf("(define-sort %s () %s)", alias, real))
+		return alias
+	}
 	if _, isBasic := types.Unalias(t).(*types.Basic); isBasic {
 		return real
 	}
